@@ -288,3 +288,35 @@ func DigestMain(prop string, n int) int {
 	}
 	return 0
 }
+
+// OneMain re-executes the single run with the given run seed (as printed in a replay file or a sweep log)
+// from its PRNG, writes its choice stream as a replay file and reports the verdict.  A run is a pure
+// function of (property, tier, run seed, code), so this recovers a replay file that was lost.
+func OneMain(prop, tier string, seed uint64) int {
+	s := Lookup(prop)
+	if s == nil {
+		return 2
+	}
+	Known = LoadKnown(filepath.Join(VerifDir(), "known_findings.json"))
+	r := NewRun(s.ID, seed, tier)
+	v, aborted, hp := exec1(s, r)
+	if hp != nil {
+		fmt.Fprintf(os.Stderr, "HARNESS PANIC (exit 2): %v\n%s\n", hp.val, hp.stack)
+		return 2
+	}
+	for _, l := range r.Log {
+		fmt.Println("  ", l)
+	}
+	if aborted != "" {
+		fmt.Printf("run aborted (no verdict): %s\n", aborted)
+		return 0
+	}
+	if v == nil {
+		fmt.Println("one: no violation")
+		return 0
+	}
+	path := filepath.Join(VerifDir(), "replays", fmt.Sprintf("%s-%d.full.json", prop, seed))
+	_ = WriteReplay(path, &ReplayFile{Property: prop, Seed: seed, Tier: tier, Invariant: v.Inv, Key: v.Key, Message: v.Msg, Choices: r.Choices(), Trace: r.Log, Faults: r.Faults, Original: len(r.Choices())})
+	fmt.Printf("one: %s\nVIOLATION property=%s replay=%s\n", v.String(), prop, path)
+	return 1
+}
